@@ -348,6 +348,7 @@ func frameLive(r *prng.R, s *out.Sink, tier string) {
 		}
 	}
 	frameDeadPeerQueue(r, s, ca, pool, srvCert)
+	frameSilentInbound(r, s, ca, pool, srvCert)
 	frameFirstSendRace(r, s, tier, ca, pool, srvCert)
 	frameBurstOrder(r, s, tier, ca, pool, srvCert)
 }
@@ -838,4 +839,68 @@ func frameDeadPeerQueue(r *prng.R, s *out.Sink, ca tlsgen.CA, pool *x509.CertPoo
 	s.N += total
 	s.Distinct["live|dead-peer-queue"] = struct{}{}
 	_ = bytes.Equal
+}
+
+// frameSilentInbound: inbound connections that stall before or during the TLS handshake (a TCP connection that never
+// says a word, one that sends half a ClientHello, one that sends garbage slowly) are opened *first*; a healthy peer that
+// connects afterwards must still be served ("a slow or stalled peer does not stop traffic between the remaining peers").
+func frameSilentInbound(r *prng.R, s *out.Sink, ca tlsgen.CA, pool *x509.CertPool, srvCert *tlsgen.CertKeyPair) {
+	lg := &liveLogger{}
+	me, _ := ca.NewClientCertKeyPair()
+	for _, kind := range []string{"silent", "half-hello", "mixed"} {
+		l, _ := net.Listen("tcp", "127.0.0.1:0")
+		addr := l.Addr().String()
+		l.Close()
+		p2id := map[string]uint16{hex.EncodeToString(sha2(me.Cert)): 0}
+		lsn := tssnet.Listen(addr, srvCert.Cert, srvCert.Key)
+		in, stop := tssnet.ServiceConnections(lsn, p2id, lg)
+		var got int64
+		go func() {
+			for range in {
+				atomic.AddInt64(&got, 1)
+			}
+		}()
+		var stalled []net.Conn
+		nStalled := 1 + r.Intn(3)
+		for i := 0; i < nStalled; i++ {
+			c, err := net.Dial("tcp", addr)
+			if err != nil {
+				continue
+			}
+			if kind == "half-hello" || (kind == "mixed" && i%2 == 0) {
+				// the first bytes of a TLS record header announcing a ClientHello that never comes
+				c.Write([]byte{0x16, 0x03, 0x01, 0x02, 0x00, 0x01, 0x00})
+			}
+			stalled = append(stalled, c)
+		}
+		time.Sleep(100 * time.Millisecond) // let the accept loop take them
+		send := tssnet.SocketRemoteParties{
+			1: tssnet.NewSocketRemoteParty(tssnet.PartyConnectionConfig{AuthFunc: authFuncFor(me), Id: 1, Endpoint: addr, TlsCAs: pool}, lg),
+		}
+		const total = 20
+		done := make(chan string, 1)
+		go func() {
+			done <- safely(func() string {
+				for i := 0; i < total; i++ {
+					send.Send(0, nil, []byte{byte(i)}, 1)
+				}
+				return "returned"
+			})
+		}()
+		deadline := time.Now().Add(8 * time.Second)
+		for time.Now().Before(deadline) && atomic.LoadInt64(&got) < total {
+			time.Sleep(5 * time.Millisecond)
+		}
+		if g := atomic.LoadInt64(&got); g != total {
+			s.Violate("C17", fmt.Sprintf("a healthy peer that connected after %d inbound connection(s) stalled in the TLS handshake (%s) had %d of its %d messages received within 8 s: a stalled peer stops the traffic of the others", len(stalled), kind, g, total),
+				fmt.Sprintf("listener; %d raw TCP connection(s) opened first, kind=%s, kept open; then NewSocketRemoteParty(...).Send x %d", len(stalled), kind, total))
+		}
+		for _, c := range stalled {
+			c.Close()
+		}
+		stop()
+		s.Count("live/stalled-inbound/" + kind)
+		s.N += total
+		s.Distinct["live|stalled-inbound|"+kind] = struct{}{}
+	}
 }
